@@ -163,8 +163,20 @@ type uriSpec struct {
 var reusedCookie protocol.Cookie
 
 func uriRT(s uriSpec) string {
-	var u protocol.URI
-	u.DisablePathNormalizing = s.noNorm
+	// half of the URIs are pooled objects whose previous owner had path normalising off (a
+	// client built with that option leaves such URIs behind): the option is the owner's, not
+	// the object's
+	up := &protocol.URI{}
+	if len(s.path)%2 == 0 {
+		prev := protocol.AcquireURI()
+		prev.DisablePathNormalizing = true
+		prev.SetPath("/left by/../the previous owner")
+		protocol.ReleaseURI(prev)
+		up = protocol.AcquireURI()
+		defer protocol.ReleaseURI(up)
+	}
+	u := up
+	u.DisablePathNormalizing = s.noNorm || u.DisablePathNormalizing
 	if s.twice {
 		// the setters are called a second time: the final values are what counts
 		u.SetScheme("ftp")
